@@ -50,10 +50,10 @@ ASSUMPTIONS = [
 NFS = progs.N_ALL_FS
 SCHEMA = {
     "m": [("api", 10), ("fs", NFS)],
-    "a": [("style", 6), ("typed", 3), ("exit", 12), ("sf", NFS), ("ef", NFS), ("xf", 2)],
+    "a": [("style", 6), ("typed", 3), ("exit", 13), ("sf", NFS), ("ef", NFS), ("xf", 2)],
 }
 # ok, ValueError, StrRaises, Custom, BadExtract, BadExtract propagating, KeyboardInterrupt, ValueError one level up
-EXIT_MAP = [0, 1, 6, 3, 16, 17, 4, 11, 18, 19, 20, 21]  # 21: exception whose extractor works for the first instance and raises for later ones; 18: exception whose extractor fails into another failing extractor; 19, 20: exception whose bool()/len() raise
+EXIT_MAP = [0, 1, 6, 3, 16, 17, 4, 11, 18, 19, 20, 21, 22]  # 22: exception class whose __module__ is None; 21: exception whose extractor works for the first instance and raises for later ones; 18: exception whose extractor fails into another failing extractor; 19, 20: exception whose bool()/len() raise
 
 
 def BOUNDS(tier):
